@@ -8,6 +8,7 @@ import (
 	"gfverif/gen"
 
 	"github.com/nyaruka/gocommon/jsonx"
+	"github.com/nyaruka/goflow/contactql"
 	"github.com/nyaruka/goflow/envs"
 	"github.com/nyaruka/goflow/flows"
 )
@@ -175,10 +176,10 @@ func checkMembership(w *World, contact *flows.Contact, sa flows.SessionAssets, e
 			continue
 		}
 		in := contact.Groups().FindByUUID(g.UUID()) != nil
-		q1 := g.CheckQueryBasedMembership(env1, contact)
+		q1 := queryResult(env1, sa, g, contact)
 		q2 := q1
 		if env2 != nil {
-			q2 = g.CheckQueryBasedMembership(env2, contact)
+			q2 = queryResult(env2, sa, g, contact)
 		}
 		if q1 != q2 {
 			w.probe("c06_env_disagreement_relaxed")
@@ -199,6 +200,19 @@ func checkMembership(w *World, contact *flows.Contact, sa flows.SessionAssets, e
 		}
 		w.probe("c06_nonactive_cleared_checked")
 	}
+}
+
+// queryResult evaluates the group's query text on the contact under env, parsing the text afresh so
+// that nothing computed when the assets were loaded (possibly under another environment) takes part.
+func queryResult(env envs.Environment, sa flows.SessionAssets, g *flows.Group, contact *flows.Contact) bool {
+	if contact.Status() != flows.ContactStatusActive {
+		return false
+	}
+	q, err := contactql.ParseQuery(env, g.Query(), sa.Fields())
+	if err != nil {
+		return g.CheckQueryBasedMembership(env, contact)
+	}
+	return contactql.EvaluateQuery(env, q, contact)
 }
 
 func mustJSON(v any) []byte { b, _ := jsonx.Marshal(v); return b }
